@@ -196,10 +196,17 @@ def build_engine(engine, flavour, tier, sources, extra_flags=(), gen_includes=()
     prune_build(inc_key)
     jobs, objs = [], []
     for s in sources:
-        k = sha(inc_key, hkey, open(s, "rb").read(), " ".join(flags), comp)[:24]
+        text = open(s, "rb").read()
+        # per-source flags: a first line "// VF-FLAGS(<flavour>[,<flavour>]): <flags>" (e.g. translation units that instantiate the documented
+        # flexible-array idiom of NOP_UNBOUNDED_BUFFER switch the array-bounds check off, see DESIGN.md 9.6)
+        sflags = list(flags)
+        m = re.match(rb"// VF-FLAGS\(([\w,]+)\): ([^\n]*)\n", text)
+        if m and flavour in m.group(1).decode().split(","):
+            sflags += m.group(2).decode().split()
+        k = sha(inc_key, hkey, text, " ".join(sflags), comp)[:24]
         obj = os.path.join(BUILD, "obj", "%s-%s-%s.o" % (inc_key, os.path.basename(s).replace(".", "_"), k))
         objs.append(obj)
-        jobs.append((comp, flags, s, obj, None))
+        jobs.append((comp, sflags, s, obj, None))
     bkey = sha(*objs, " ".join(fl["link"]))[:24]
     binary = os.path.join(BUILD, "bin", "%s-%s-%s-%s" % (inc_key, engine, flavour, bkey))
     if os.path.exists(binary):
